@@ -1,8 +1,20 @@
-/* contracts/conf.h — spec macros for src/conf.c (C09, C10, C11).  Included
- * AFTER the (annotated copy of) conf.c so the file-local state is in scope. */
+/* contracts/conf.h — spec macros and contracts for src/conf.c (C09, C11; owner: conf).
+ * Included AFTER the (annotated copy of) conf.c so the file-local state is in scope.
+ *
+ * Contract blocks are selected by the unit:
+ *   VERIF_CT_REGISTER    the four spifconf_register_* pushes (proved in units/C09/register.c)
+ *   VERIF_CT_CALLEES     DECLARED contracts of callees that belong to other units/agents
+ *                        (get_word, get_pword, chomp: strings.c; shell_expand: C10; temp_file: C11 file.c)
+ *   VERIF_CT_LOOKUP      v_ctx_lookup (the ctx_name_to_id loop, see env_conf.h section 6b)
+ *   VERIF_CT_OPEN_FILE   spifconf_open_file
+ *   VERIF_CT_PARSE_LINE  spifconf_parse_line (file mode: fp != NULL)
+ */
 #ifndef VERIF_CONF_H
 #define VERIF_CONF_H
-/* capacities: 1..512 (an 8-bit index can only force a doubling up to 2*255) */
+/* ---------------------------------------------------------------------------------------
+ * representation invariants of the four tables.  Capacities: 1..512 (an 8-bit index can
+ * only force a doubling up to 2*255)
+ * --------------------------------------------------------------------------------------- */
 #define CTXSTK_INV   (ctx_state_cnt >= 1 && ctx_state_cnt <= 512 && ctx_state_idx < ctx_state_cnt && \
                       __CPROVER_is_fresh(ctx_state, sizeof(ctx_state_t) * (size_t) ctx_state_cnt))
 #define CTXSTK_POST  (ctx_state_cnt >= 1 && ctx_state_cnt <= 512 && ctx_state_idx < ctx_state_cnt && \
@@ -19,4 +31,325 @@
                       __CPROVER_is_fresh(builtins, sizeof(spifconf_func_t) * (size_t) builtin_cnt))
 #define BLTTAB_POST  (builtin_cnt >= 1 && builtin_cnt <= 512 && builtin_idx < builtin_cnt && \
                       __CPROVER_rw_ok(builtins, sizeof(spifconf_func_t) * (size_t) builtin_cnt))
+
+/* "every registered context has a name that is a C string", at the ghost index K (is_fresh:
+ * requires-side; rw_ok: ensures-side).  vg_n2 is the ghost length of that one name. */
+#define CTXNAME_AT(K)       ((K) > ctx_idx || (vg_n2 <= VCAP && __CPROVER_is_fresh(context[(K)].name, vg_n2 + 1) && context[(K)].name[vg_n2] == 0))
+#define CTXNAME_POST_AT(K)  ((K) > ctx_idx || (context[(K)].name != NULL && __CPROVER_r_ok(context[(K)].name, 1)))
+/* "every open context refers to a registered context", at stack index J */
+#define CTXID_AT(J)         ((J) > ctx_state_idx || ctx_state[(J)].ctx_id <= ctx_idx)
+
+#define VSPACE(c) ((c) == ' ' || ((c) >= '\t' && (c) <= '\r'))
+
+/* =======================================================================================
+ * VERIF_CT_REGISTER
+ * ======================================================================================= */
+#ifdef VERIF_CT_REGISTER
+/* index that is safe to read inside __CPROVER_old for every value of the ghost K */
+#define VIDX(K, top) ((K) <= (top) ? (K) : 0)
+#define CTXSTK_KEEP(K) ((K) > __CPROVER_old(ctx_state_idx) || __CPROVER_old(ctx_state_idx) == 255 || \
+                        (ctx_state[(K)].ctx_id == __CPROVER_old(ctx_state[VIDX(K, ctx_state_idx)].ctx_id) && \
+                         ctx_state[(K)].state == __CPROVER_old(ctx_state[VIDX(K, ctx_state_idx)].state)))
+unsigned char spifconf_register_context_state(unsigned char ctx_id)
+/* total: at depth 255 the 8-bit index wraps to 0 (memory-safe since the capacities are ints; outside C09's domain) */
+__CPROVER_requires(CTXSTK_INV)
+__CPROVER_assigns(ctx_state, ctx_state_idx, ctx_state_cnt, __CPROVER_object_whole(ctx_state))
+__CPROVER_frees(ctx_state)
+__CPROVER_ensures(CTXSTK_POST)
+__CPROVER_ensures(ctx_state_idx == (__CPROVER_old(ctx_state_idx) + 1) % 256 && __CPROVER_return_value == ctx_state_idx)
+__CPROVER_ensures(ctx_state[ctx_state_idx].ctx_id == ctx_id && ctx_state[ctx_state_idx].state == NULL)
+/* entries below the new top are preserved: proved for the arbitrary ghost index vg_k ... */
+__CPROVER_ensures(CTXSTK_KEEP(vg_k))
+#ifdef VERIF_ROLE_CALLEE_register_context_state
+/* ... hence usable by a caller at the index it needs (the entry just below the new top) */
+__CPROVER_ensures(CTXSTK_KEEP(__CPROVER_old(ctx_state_idx)))
+#endif
+;
+
+#define FSTK_KEEP(K) ((K) > __CPROVER_old(fstate_idx) || \
+                  (fstate[(K)].fp == __CPROVER_old(fstate[VIDX(K, fstate_idx)].fp) && fstate[(K)].path == __CPROVER_old(fstate[VIDX(K, fstate_idx)].path) && \
+                   fstate[(K)].outfile == __CPROVER_old(fstate[VIDX(K, fstate_idx)].outfile) && fstate[(K)].line == __CPROVER_old(fstate[VIDX(K, fstate_idx)].line) && \
+                   fstate[(K)].flags == __CPROVER_old(fstate[VIDX(K, fstate_idx)].flags)))
+unsigned char spifconf_register_fstate(FILE *fp, spif_charptr_t path, spif_charptr_t outfile, unsigned long line, unsigned char flags)
+__CPROVER_requires(FSTK_INV && fstate_idx < 255)
+__CPROVER_requires(fp != NULL && path != NULL && line <= 0xffffffffUL)
+__CPROVER_assigns(fstate, fstate_idx, fstate_cnt, __CPROVER_object_whole(fstate))
+__CPROVER_frees(fstate)
+__CPROVER_ensures(FSTK_POST)
+__CPROVER_ensures(fstate_idx == __CPROVER_old(fstate_idx) + 1 && __CPROVER_return_value == fstate_idx)
+__CPROVER_ensures(fstate[fstate_idx].fp == fp && fstate[fstate_idx].path == path && fstate[fstate_idx].outfile == outfile
+                  && fstate[fstate_idx].line == (spif_uint32_t) line && fstate[fstate_idx].flags == flags)
+__CPROVER_ensures(FSTK_KEEP(vg_k))
+;
+#endif /* VERIF_CT_REGISTER */
+
+/* =======================================================================================
+ * VERIF_CT_CALLEES — declared contracts (weak but true) of functions owned by other units
+ * ======================================================================================= */
+#ifdef VERIF_CT_CALLEES
+/* the chomped line: spec-level snapshot of the first 16 bytes of the text chomp leaves behind */
+char   vg_line[16];
+size_t vg_gw_len;      /* ghost length of the word get_word returned */
+size_t vg_se_len;      /* ghost: a NUL position of the text shell_expand left in s */
+
+#define VLINE_SNAP(i) (!((size_t) (i) < VREMAIN(s)) || vg_line[i] == s[i])
+/* spiftool_chomp (strings.c, C13): removes leading and trailing white space in place.
+ * ASSUMES (as for libc string functions): s holds a NUL at or after s. */
+spif_charptr_t spiftool_chomp(spif_charptr_t s)
+__CPROVER_requires(s != NULL && __CPROVER_rw_ok(s, 1))
+__CPROVER_assigns(__CPROVER_object_from(s), vg_line, vg_seq, vg_t_chomp)
+__CPROVER_ensures(__CPROVER_return_value == s)
+__CPROVER_ensures(vg_seq == __CPROVER_old(vg_seq) + 1 && vg_t_chomp == vg_seq)
+/* result starts with a non-blank (or is empty); the ghost snapshot equals the text */
+__CPROVER_ensures(!VSPACE(s[0]))
+__CPROVER_ensures(VLINE_SNAP(0) && VLINE_SNAP(1) && VLINE_SNAP(2) && VLINE_SNAP(3) && VLINE_SNAP(4) && VLINE_SNAP(5) && VLINE_SNAP(6) && VLINE_SNAP(7))
+__CPROVER_ensures(VLINE_SNAP(8) && VLINE_SNAP(9) && VLINE_SNAP(10) && VLINE_SNAP(11) && VLINE_SNAP(12) && VLINE_SNAP(13) && VLINE_SNAP(14) && VLINE_SNAP(15))
+;
+
+#define VPLAINCH(c) ((c) != 0 && !VSPACE(c) && (c) != '\"' && (c) != '\'')
+/* spiftool_get_word (strings.c, C12): index-th word as a fresh heap string, NULL if there are
+ * fewer words.  The two non-NULL guarantees are the ones parse_line relies on:
+ *  - word 1 exists as soon as the string is not empty (the scanning loop runs once);
+ *  - word 2 exists when the string starts with five plain characters and a blank ("begin X"):
+ *    the loop is entered a second time because str[5] != 0. */
+spif_charptr_t spiftool_get_word(unsigned long index, const spif_charptr_t str)
+__CPROVER_requires(str != NULL && __CPROVER_r_ok(str, 1))
+__CPROVER_assigns(vg_gw_len)
+__CPROVER_ensures(__CPROVER_return_value == NULL ||
+                  (vg_gw_len <= VCAP && __CPROVER_is_fresh(__CPROVER_return_value, vg_gw_len + 1) && __CPROVER_return_value[vg_gw_len] == 0))
+__CPROVER_ensures(!(index == 1 && str[0] != 0) || __CPROVER_return_value != NULL)
+__CPROVER_ensures(!(index == 2 && VPLAINCH(str[0]) && VPLAINCH(str[1]) && VPLAINCH(str[2]) && VPLAINCH(str[3]) && VPLAINCH(str[4]) && VSPACE(str[5]))
+                  || __CPROVER_return_value != NULL)
+;
+/* spiftool_get_pword (strings.c, C12): pointer INTO str at the index-th word, NULL if there
+ * is none; a leading plain character is word 1 itself. */
+spif_charptr_t spiftool_get_pword(unsigned long index, const spif_charptr_t str)
+__CPROVER_requires(str != NULL && __CPROVER_r_ok(str, 1))
+__CPROVER_assigns()
+__CPROVER_ensures(__CPROVER_return_value == NULL ||
+                  (__CPROVER_same_object(__CPROVER_return_value, str) &&
+                   __CPROVER_POINTER_OFFSET(__CPROVER_return_value) >= __CPROVER_POINTER_OFFSET(str) &&
+                   __CPROVER_r_ok(__CPROVER_return_value, 1) && *__CPROVER_return_value != 0))
+__CPROVER_ensures(!(index == 1 && VPLAINCH(str[0])) || __CPROVER_return_value == str)
+;
+/* spifconf_shell_expand (conf.c, C10, owner expand): rewrites s in place with the expansion
+ * (at most CONFIG_BUFF-1 characters, copied back with strcpy: s must have CONFIG_BUFF bytes).
+ * Spawns a process only after reading a backquote or matching %exec( . */
+spif_charptr_t spifconf_shell_expand(spif_charptr_t s)
+__CPROVER_requires(s != NULL && VREMAIN(s) >= CONFIG_BUFF && __CPROVER_rw_ok(s, CONFIG_BUFF))
+__CPROVER_assigns(__CPROVER_object_upto(s, CONFIG_BUFF), spifconf_vars, vg_se_len, vg_seq, vg_t_expand, vg_spawned, vg_saw_bq, vg_saw_exec)
+__CPROVER_ensures(__CPROVER_return_value == s || __CPROVER_return_value == NULL)
+__CPROVER_ensures(vg_se_len < CONFIG_BUFF && s[vg_se_len] == 0)
+__CPROVER_ensures(vg_seq == __CPROVER_old(vg_seq) + 1 && vg_t_expand == vg_seq)
+__CPROVER_ensures(vg_spawned == __CPROVER_old(vg_spawned) || vg_saw_bq != __CPROVER_old(vg_saw_bq) || vg_saw_exec != __CPROVER_old(vg_saw_exec))
+;
+/* spiftool_temp_file (file.c; proved in C11.temp_file): descriptor or -1; ftemplate rewritten
+ * (at most len bytes, NUL-terminated); spawns nothing. */
+int spiftool_temp_file(spif_charptr_t ftemplate, size_t len)
+__CPROVER_requires(ftemplate != NULL && len > 0 && __CPROVER_rw_ok(ftemplate, len))
+__CPROVER_assigns(__CPROVER_object_upto(ftemplate, len), vg_umask_cur, vg_umask_calls, vg_mkstemp_umask, vg_mkstemp_tpl_ok, vg_mkstemp_calls,
+                  vg_mkstemp_fd, vg_fchmod_fd, vg_fchmod_mode, vg_fchmod_calls, vg_n3)
+__CPROVER_ensures(__CPROVER_return_value >= -1)
+__CPROVER_ensures(vg_n3 < len && ftemplate[vg_n3] == 0)
+;
+#endif /* VERIF_CT_CALLEES */
+
+/* =======================================================================================
+ * VERIF_CT_LOOKUP — the loop of ctx_name_to_id as a function (re-binding 6b of env_conf.h)
+ *
+ *   for ((i)=0; (i) <= ctx_idx; (i)++) { if (!strcasecmp(n, context[i].name)) { the_id = i; break; } }
+ *
+ * The function returns the exit value of i (<= ctx_idx: matched at i; ctx_idx+1: no match).
+ * Ghost recording: the comparison outcome at the ghost index vg_k goes to vg_lk_at_k.  The
+ * comparison for slots other than vg_k is an arbitrary int WITHOUT touching the name (the
+ * libc over-approximation of env.h); the slot vg_k is compared for real, with the argument
+ * validity obligations of strcasecmp.  vg_k is arbitrary, so every slot is checked.
+ * ======================================================================================= */
+#ifdef VERIF_CT_LOOKUP
+int vg_lk_at_k;            /* outcome of the comparison with context[vg_k].name */
+unsigned long vg_lk;       /* last result of v_ctx_lookup */
+int vg_lk_hit;             /* outcome of the comparison at the returned index (0 when matched) */
+
+static unsigned long v_ctx_lookup(spif_charptr_t n)
+{
+    unsigned long i;
+    int r = 1;
+
+    for (i = 0; i <= ctx_idx; i++)
+    __CPROVER_assigns(i, r, vg_cmp_last, vg_lk_at_k)
+    __CPROVER_loop_invariant(i <= (unsigned long) ctx_idx + 1)
+    __CPROVER_loop_invariant(r != 0)
+    __CPROVER_loop_invariant(!(vg_k < i) || vg_lk_at_k != 0)
+    __CPROVER_decreases((unsigned long) ctx_idx + 1 - i)
+    {
+        if (i == vg_k) {
+            r = strcasecmp((char *) n, (char *) context[i].name);
+            vg_lk_at_k = r;
+        } else {
+            r = nondet_int();
+        }
+        if (!r) {
+            break;
+        }
+    }
+    vg_lk = i;
+    vg_lk_hit = r;
+    return i;
+}
+static unsigned long v_ctx_lookup(spif_charptr_t n)
+__CPROVER_requires(CTXTAB_INV && n != NULL && __CPROVER_r_ok(n, 1))
+__CPROVER_requires(CTXNAME_AT(vg_k))
+__CPROVER_assigns(vg_cmp_last, vg_lk_at_k, vg_lk, vg_lk_hit)
+__CPROVER_ensures(__CPROVER_return_value <= (unsigned long) ctx_idx + 1 && vg_lk == __CPROVER_return_value)
+/* a returned index inside the table is a match; every earlier slot did not match */
+__CPROVER_ensures(__CPROVER_return_value > ctx_idx || vg_lk_hit == 0)
+__CPROVER_ensures(__CPROVER_return_value <= ctx_idx || vg_lk_hit != 0)
+__CPROVER_ensures(!(vg_k < __CPROVER_return_value) || vg_lk_at_k != 0)
+;
+#endif /* VERIF_CT_LOOKUP */
+
+
+/* =======================================================================================
+ * VERIF_CT_OPEN_FILE — spifconf_open_file: NULL or a newly opened stream (one more open
+ * stream in the ghost count); reads at most the header line; spawns nothing.
+ * The fopen stub refuses a 256th nested file (C09's domain: nesting <= 255).
+ * ======================================================================================= */
+#ifdef VERIF_CT_OPEN_FILE
+#define FGETS_GHOSTS vg_fg_budget, vg_fg_mid, vg_fg_nl, vg_fg_len, vg_fg_buf, vg_fg_ok, vg_fg_hdr, vg_deliverable
+FILE *spifconf_open_file(spif_charptr_t name)
+__CPROVER_requires(name == NULL || __CPROVER_r_ok(name, 1))
+__CPROVER_requires(libast_program_name != NULL && __CPROVER_r_ok(libast_program_name, 1))
+__CPROVER_requires(libast_program_version != NULL && __CPROVER_r_ok(libast_program_version, 1))
+__CPROVER_assigns(FGETS_GHOSTS, vg_open_streams, vg_k2)
+__CPROVER_ensures(__CPROVER_return_value == NULL ? vg_open_streams == __CPROVER_old(vg_open_streams)
+                  : (vg_open_streams == __CPROVER_old(vg_open_streams) + 1 && fstate_idx < 255 &&
+                     __CPROVER_is_fresh(__CPROVER_return_value, sizeof(FILE))))
+/* the header line is not a config line; the parse loop starts at a line boundary */
+__CPROVER_ensures(vg_deliverable == __CPROVER_old(vg_deliverable) && vg_fg_budget <= __CPROVER_old(vg_fg_budget))
+__CPROVER_ensures(__CPROVER_return_value == NULL ? vg_fg_mid == __CPROVER_old(vg_fg_mid) : !vg_fg_mid)
+;
+#endif /* VERIF_CT_OPEN_FILE */
+
+/* =======================================================================================
+ * VERIF_CT_PARSE_LINE — spifconf_parse_line in file mode (fp != NULL), C09 + C11.
+ *
+ * Line classes are defined on the CHOMPED text (ghost snapshot vg_line written by chomp's
+ * contract), from the grammar of the property statement:
+ *     comment | begin NAME | end | %directive | text
+ * Keywords are the documented lower-case `begin` / `end`.  Lines that differ from a keyword
+ * only in letter case are left unspecified (the parser's switch is case-sensitive in the
+ * first letter and case-insensitive in the rest); they are excluded from `text`.
+ * ======================================================================================= */
+#ifdef VERIF_CT_PARSE_LINE
+#define L_(i)        (vg_line[i])
+#define LCI(i, c)    (VLOW(vg_line[i]) == (c))
+#define PL_RAW0      (__CPROVER_old(buff[0]))
+#define PL_PRECOMMENT   (PL_RAW0 == 0 || PL_RAW0 == '\n' || PL_RAW0 == '#' || PL_RAW0 == '<')
+#define PL_POSTCOMMENT  (!PL_PRECOMMENT && (L_(0) == 0 || L_(0) == '#'))
+#define PL_COMMENT      (PL_PRECOMMENT || PL_POSTCOMMENT)
+#define PL_BEGIN        (!PL_PRECOMMENT && L_(0) == 'b' && L_(1) == 'e' && L_(2) == 'g' && L_(3) == 'i' && L_(4) == 'n' && L_(5) == ' ')
+#define PL_BEGIN_CI     (LCI(0, 'b') && LCI(1, 'e') && LCI(2, 'g') && LCI(3, 'i') && LCI(4, 'n') && L_(5) == ' ')
+#define PL_END          (!PL_PRECOMMENT && L_(0) == 'e' && L_(1) == 'n' && L_(2) == 'd' && (L_(3) == ' ' || L_(3) == 0))
+#define PL_END_CI       (LCI(0, 'e') && LCI(1, 'n') && LCI(2, 'd') && (L_(3) == ' ' || L_(3) == 0))
+#define PL_PCT          (!PL_PRECOMMENT && L_(0) == '%')
+#define PL_TEXT         (!PL_COMMENT && L_(0) != '%' && !PL_BEGIN_CI && !PL_END_CI)
+/* the skip-to-end flag of the current file at entry (set by a handler) */
+#define PL_SKIP         ((__CPROVER_old(fstate[fstate_idx].flags) & FILE_SKIP_TO_END) != 0)
+#define PL_DEPTH0       (__CPROVER_old(ctx_state_idx))
+#define PL_STATE0       (__CPROVER_old(ctx_state[ctx_state_idx].state))
+#define PL_ID0          (__CPROVER_old(ctx_state[ctx_state_idx].ctx_id))
+#define PL_NLOG0        (__CPROVER_old(vg_nlog))
+#define PL_LOG(n)       (vg_log[(PL_NLOG0 + (n)) % VLOG_MAX])
+#define PL_NOCALL       (vg_nlog == PL_NLOG0)
+#define PL_ONECALL      (vg_nlog == PL_NLOG0 + 1)
+#define PL_CTX_SAME     (ctx_state_idx == PL_DEPTH0 && ctx_state[ctx_state_idx].state == PL_STATE0 && ctx_state[ctx_state_idx].ctx_id == PL_ID0)
+/* entry J of the context stack untouched (J is read safely inside old) */
+#define PL_CTX_KEEP(J)  (ctx_state[(J)].ctx_id == __CPROVER_old(ctx_state[VIDX(J, ctx_state_idx)].ctx_id) && \
+                         ctx_state[(J)].state == __CPROVER_old(ctx_state[VIDX(J, ctx_state_idx)].state))
+#define PL_FS_KEEP(J)   (fstate[(J)].fp == __CPROVER_old(fstate[VIDX(J, fstate_idx)].fp) && fstate[(J)].path == __CPROVER_old(fstate[VIDX(J, fstate_idx)].path) && \
+                         fstate[(J)].outfile == __CPROVER_old(fstate[VIDX(J, fstate_idx)].outfile) && fstate[(J)].line == __CPROVER_old(fstate[VIDX(J, fstate_idx)].line) && \
+                         fstate[(J)].flags == __CPROVER_old(fstate[VIDX(J, fstate_idx)].flags))
+/* "every file on the stack from slot 1 up has a stream", at the ghost slot */
+#define FSFP_AT(J)      ((J) < 1 || (J) > fstate_idx || fstate[(J)].fp != NULL)
+
+void spifconf_parse_line(FILE *fp, spif_charptr_t buff)
+/* ---- preconditions: the call site in spifconf_parse (line buffer of CONFIG_BUFF bytes just
+ *      filled by fgets with a complete line) and the initialised subsystem ---------------- */
+__CPROVER_requires(fp != NULL)
+__CPROVER_requires(__CPROVER_is_fresh(buff, CONFIG_BUFF) && vg_fg_len < CONFIG_BUFF && buff[vg_fg_len] == 0)
+__CPROVER_requires(CTXTAB_INV && CTXSTK_INV && FSTK_INV)
+__CPROVER_requires(CTXNAME_AT(vg_k))
+__CPROVER_requires(CTXID_AT(ctx_state_idx) && CTXID_AT(ctx_state_idx ? ctx_state_idx - 1 : 0) && CTXID_AT(vg_k))
+__CPROVER_requires(FSFP_AT(vg_k2) && fstate_idx >= 1)
+__CPROVER_requires(libast_program_name != NULL && __CPROVER_r_ok(libast_program_name, 1))
+__CPROVER_requires(libast_program_version != NULL && __CPROVER_r_ok(libast_program_version, 1))
+/* sequencing ghosts: this call is for the newest complete line, at a line boundary */
+__CPROVER_requires(vg_deliverable == vg_pl_calls + 1 && !vg_fg_mid)
+__CPROVER_assigns(__CPROVER_object_whole(buff), spifconf_vars)
+__CPROVER_assigns(ctx_state, ctx_state_idx, ctx_state_cnt, __CPROVER_object_whole(ctx_state))
+__CPROVER_assigns(fstate, fstate_idx, fstate_cnt, __CPROVER_object_whole(fstate))
+__CPROVER_assigns(vg_log, vg_nlog, vg_call_id, vg_call_h, vg_seq, vg_t_chomp, vg_t_expand, vg_line, vg_gw_len, vg_se_len, vg_cmp_last,
+                  vg_lk, vg_lk_at_k, vg_lk_hit, vg_spawned, vg_saw_preproc, vg_saw_bq, vg_saw_exec, vg_open_streams, vg_pl_calls, vg_n3,
+                  vg_umask_cur, vg_umask_calls, vg_mkstemp_umask, vg_mkstemp_tpl_ok, vg_mkstemp_calls, vg_mkstemp_fd,
+                  vg_fchmod_fd, vg_fchmod_mode, vg_fchmod_calls, FGETS_GHOSTS, vg_k2)
+__CPROVER_frees(ctx_state, fstate)
+/* ---- E0: representation invariants are kept; one more parse_line call -------------------- */
+__CPROVER_ensures(CTXSTK_POST && FSTK_POST && fstate_idx >= 1)
+__CPROVER_ensures(CTXID_AT(ctx_state_idx) && CTXID_AT(vg_k))
+__CPROVER_ensures(FSFP_AT(vg_k2))
+__CPROVER_ensures(vg_pl_calls == __CPROVER_old(vg_pl_calls) + 1 && vg_deliverable == __CPROVER_old(vg_deliverable) && !vg_fg_mid)
+__CPROVER_ensures(vg_fg_budget <= __CPROVER_old(vg_fg_budget))
+/* ---- E1: stack motion is by at most one; everything below the touched entries is kept ----- */
+__CPROVER_ensures(fstate_idx == __CPROVER_old(fstate_idx) || fstate_idx == __CPROVER_old(fstate_idx) + 1)
+__CPROVER_ensures(!(vg_k < __CPROVER_old(fstate_idx)) || PL_FS_KEEP(vg_k))
+__CPROVER_ensures(ctx_state_idx == PL_DEPTH0 || ctx_state_idx == (PL_DEPTH0 + 1) % 256 || ctx_state_idx + 1 == PL_DEPTH0)
+__CPROVER_ensures(PL_DEPTH0 == 255 || !(vg_k + 1 < PL_DEPTH0) || PL_CTX_KEEP(vg_k))
+/* a handler is called at most once per line in file mode */
+__CPROVER_ensures(PL_NOCALL || PL_ONECALL)
+/* ---- comment / empty line: nothing happens ---------------------------------------------- */
+__CPROVER_ensures(!PL_COMMENT || (PL_NOCALL && PL_CTX_SAME && fstate_idx == __CPROVER_old(fstate_idx)))
+/* ---- begin NAME: exactly one BEGIN call to the handler of the looked-up context (context 0
+ *      when no registered name matches), receiving the ENCLOSING context's state; its result is
+ *      the new context's state; the enclosing entry is left as it was; depth + 1 -------------- */
+__CPROVER_ensures(!(PL_BEGIN && !PL_SKIP && PL_DEPTH0 < 255) ||
+                  (PL_ONECALL && PL_LOG(0).kind == VK_BEGIN && PL_LOG(0).in == PL_STATE0 &&
+                   ctx_state_idx == PL_DEPTH0 + 1 &&
+                   ctx_state[ctx_state_idx].state == PL_LOG(0).out && ctx_state[ctx_state_idx].ctx_id == PL_LOG(0).id &&
+                   PL_LOG(0).id <= ctx_idx && PL_LOG(0).h == context[PL_LOG(0).id].handler &&
+                   PL_LOG(0).id == (vg_lk <= ctx_idx ? vg_lk : 0) &&
+                   ctx_state[PL_DEPTH0].state == PL_STATE0 && ctx_state[PL_DEPTH0].ctx_id == PL_ID0 &&
+                   fstate_idx == __CPROVER_old(fstate_idx)))
+/* ---- end: exactly one END call to the current context's handler with its state; depth - 1;
+ *      the result becomes the enclosing context's state.  Surplus end (depth 0): ignored. ----- */
+__CPROVER_ensures(!(PL_END && PL_DEPTH0 > 0) ||
+                  (PL_ONECALL && PL_LOG(0).kind == VK_END && PL_LOG(0).id == PL_ID0 && PL_LOG(0).in == PL_STATE0 &&
+                   PL_LOG(0).h == context[PL_ID0].handler &&
+                   ctx_state_idx == PL_DEPTH0 - 1 && ctx_state[ctx_state_idx].state == PL_LOG(0).out &&
+                   fstate_idx == __CPROVER_old(fstate_idx)))
+__CPROVER_ensures(!(PL_END && PL_DEPTH0 == 0) || (PL_NOCALL && PL_CTX_SAME && fstate_idx == __CPROVER_old(fstate_idx)))
+/* ---- ordinary text: exactly one call to the innermost context's handler, after chomp and
+ *      expansion, with the stored state; the result is stored back; depth unchanged ---------- */
+__CPROVER_ensures(!(PL_TEXT && !PL_SKIP) ||
+                  (PL_ONECALL && PL_LOG(0).text == buff && PL_LOG(0).id == PL_ID0 && PL_LOG(0).in == PL_STATE0 &&
+                   PL_LOG(0).h == context[PL_ID0].handler &&
+                   ctx_state_idx == PL_DEPTH0 && ctx_state[ctx_state_idx].state == PL_LOG(0).out && ctx_state[ctx_state_idx].ctx_id == PL_ID0 &&
+                   vg_t_chomp < vg_t_expand && vg_t_expand < PL_LOG(0).seq &&
+                   fstate_idx == __CPROVER_old(fstate_idx)))
+/* ---- skipped (a handler asked to skip to the end of its context): no delivery -------------- */
+__CPROVER_ensures(!((PL_TEXT || PL_BEGIN) && PL_SKIP) || (PL_NOCALL && PL_CTX_SAME && fstate_idx == __CPROVER_old(fstate_idx)))
+/* ---- %directive: never delivered to a handler; context stack untouched ------------------- */
+__CPROVER_ensures(!PL_PCT || (PL_NOCALL && PL_CTX_SAME))
+/* ---- a file is pushed only by a %directive; the new entry is a newly opened stream -------- */
+__CPROVER_ensures(fstate_idx == __CPROVER_old(fstate_idx) ||
+                  (PL_PCT && vg_open_streams == __CPROVER_old(vg_open_streams) + 1 &&
+                   __CPROVER_is_fresh(fstate[fstate_idx].fp, sizeof(FILE)) && fstate[fstate_idx].line == 1 &&
+                   fstate[fstate_idx].flags == 0 && fstate[fstate_idx].outfile == NULL && fstate[fstate_idx].path != NULL))
+__CPROVER_ensures(fstate_idx != __CPROVER_old(fstate_idx) || vg_open_streams == __CPROVER_old(vg_open_streams))
+/* ---- C11 spawn freedom: a process is spawned only after the directive word "preproc " was
+ *      matched, or shell_expand read a backquote / matched %exec( --------------------------- */
+__CPROVER_ensures(vg_spawned == __CPROVER_old(vg_spawned) || vg_saw_preproc != __CPROVER_old(vg_saw_preproc) ||
+                  vg_saw_bq != __CPROVER_old(vg_saw_bq) || vg_saw_exec != __CPROVER_old(vg_saw_exec))
+;
+#endif /* VERIF_CT_PARSE_LINE */
+
 #endif
